@@ -5,7 +5,10 @@ Import ListNotations.
 Local Open Scope N_scope.
 
 Definition op_time (o : op) : N :=
-  match o with AddOT t _ _ | AddLT t _ _ | GetOT t _ | GetLT t _ | RemoveExpired t => t end.
+  match o with
+  | AddOT t _ _ | AddLT t _ _ | GetOT t _ | GetLT t _ | RemoveExpired t
+  | SetOT t _ _ | SetLT t _ _ | Count t _ => t
+  end.
 
 Definition show_out (t : N) (x : out) : string :=
   match x with
@@ -15,6 +18,7 @@ Definition show_out (t : N) (x : out) : string :=
   | Got None => "G-"
   | Got (Some b) => "G" ++ show_N (tag b) ++ (if valid_at t b then ":ok" else ":bad")
   | Expired => "E"
+  | Cnt a b => "N" ++ show_N a ++ "/" ++ show_N b
   | Done => "D"
   end.
 
@@ -24,7 +28,7 @@ Definition model_line (ops : list op) : string :=
 
 (** What the harness saw: [OG (Some k) v] = returned the bundle with tag [k], and calling
     [verify()] on it at that moment gave [v]. *)
-Inductive obs := OA | OR | OG (k : option N) (v : bool) | OE | OD.
+Inductive obs := OA | OR | OG (k : option N) (v : bool) | OE | OD | ON.
 
 Fixpoint find_tag (pool : list bundle) (k : N) : option bundle :=
   match pool with
@@ -38,27 +42,43 @@ Definition rec_eqb (a b : rec) : bool :=
   Bool.eqb (fst (fst a)) (fst (fst b)) && (snd (fst a) =? snd (fst b)) && (snd a =? snd b).
 Definition mem_rec (x : rec) (l : list rec) : bool := existsb (rec_eqb x) l.
 
-(** [acc] = accepted so far, [ret] = one-time bundles handed out so far. *)
-Fixpoint check_all (pool : list bundle) (acc ret : list rec) (ops : list op) (os : list obs) : bool :=
+(** One occurrence of [x] taken out of the multiset [l]. *)
+Fixpoint remove_one (x : rec) (l : list rec) : list rec :=
+  match l with
+  | [] => []
+  | y :: r => if rec_eqb x y then r else y :: remove_one x r
+  end.
+(** All records of kind [k] of member [i] dropped (the member's Vec was replaced). *)
+Definition drop_member (k : bool) (i : N) (l : list rec) : list rec :=
+  filter (fun r => negb (Bool.eqb (fst (fst r)) k && (snd (fst r) =? i))) l.
+Definition recs_of (k : bool) (i : N) (l : list bundle) : list rec := map (fun b => (k, i, tag b)) l.
+
+(** [acc] = multiset of the bundles put into the registry so far (accepted by [add_*] or
+    installed by a restore) and not yet handed out; a one-time bundle that is handed out is
+    taken out once (the same bundle registered twice may be handed out twice, not three times). *)
+Fixpoint check_all (pool : list bundle) (acc : list rec) (ops : list op) (os : list obs) : bool :=
   match ops, os with
   | [], [] => true
   | o :: r, x :: s =>
       match o, x with
-      | AddOT t i b, OA => valid_at t b && check_all pool ((true, i, tag b) :: acc) ret r s
-      | AddLT t i b, OA => valid_at t b && check_all pool ((false, i, tag b) :: acc) ret r s
-      | AddOT _ _ _, OR | AddLT _ _ _, OR => check_all pool acc ret r s
+      | AddOT t i b, OA => valid_at t b && check_all pool ((true, i, tag b) :: acc) r s
+      | AddLT t i b, OA => valid_at t b && check_all pool ((false, i, tag b) :: acc) r s
+      | AddOT _ _ _, OR | AddLT _ _ _, OR => check_all pool acc r s
       | GetOT t i, OG (Some k) v =>
           match find_tag pool k with
-          | Some b => valid_at t b && v && mem_rec (true, i, k) acc && negb (mem_rec (true, i, k) ret)
+          | Some b => valid_at t b && v && mem_rec (true, i, k) acc
           | None => false
-          end && check_all pool acc ((true, i, k) :: ret) r s
+          end && check_all pool (remove_one (true, i, k) acc) r s
       | GetLT t i, OG (Some k) v =>
           match find_tag pool k with
           | Some b => valid_at t b && v && mem_rec (false, i, k) acc
           | None => false
-          end && check_all pool acc ret r s
-      | GetOT _ _, OG None _ | GetLT _ _, OG None _ | GetLT _ _, OE | RemoveExpired _, OD =>
-          check_all pool acc ret r s
+          end && check_all pool acc r s
+      | SetOT _ i l, OD => check_all pool (recs_of true i l ++ drop_member true i acc) r s
+      | SetLT _ i l, OD => check_all pool (recs_of false i l ++ drop_member false i acc) r s
+      | GetOT _ _, OG None _ | GetLT _ _, OG None _ | GetLT _ _, OE | RemoveExpired _, OD
+      | Count _ _, ON =>
+          check_all pool acc r s
       | _, _ => false
       end
   | _, _ => false
@@ -66,7 +86,8 @@ Fixpoint check_all (pool : list bundle) (acc ret : list rec) (ops : list op) (os
 
 (** The property on the implementation's observation: everything accepted was valid at that
     moment; everything returned is valid at the moment it is returned (by the model's clock
-    arithmetic *and* by the implementation's own [verify()]), was accepted for that member, and
-    a one-time bundle is not handed out twice. *)
+    arithmetic *and* by the implementation's own [verify()]), was put into the registry for that
+    member (accepted or restored), and a one-time bundle is not handed out more often than it
+    was put in. *)
 Definition check (pool : list bundle) (ops : list op) (os : list obs) : bool :=
-  check_all pool [] [] ops os.
+  check_all pool [] ops os.
